@@ -282,23 +282,30 @@ def resetPrefixedOptions (oldP newP : Str) : M Unit :=
           | none => .str nmapped
       objSetValue id nv) Tables.nopfxTable
 
-/-- one activation of `set_option` without the `buildtype` tail; returns `(changed, validated value)` -/
-def setOptionCore (key : Key) (nv0 : Val) (first : Bool) : M (Bool × Val) := do
-  let s ← get
-  let nv1 ← (if key.name == sPrefix then
-      match nv0 with
-      | .str p => ofExcept ((sanitizePrefix p).map Val.str)
-      | _ => fail .assertion
-    else if s.isBuiltin key then
-      match getValueFor s prefixKey with
-      | .ok (.str p) => ofExcept (sanitizeDirValue p key nv0)
-      | .ok _ => fail .assertion
-      | .error e => fail e
-    else M.pure nv0)
-  let id ← (match resolveId s key with
-    | .ok id => M.pure id
-    | .error .key => fail .meson       -- `Unknown option`
-    | .error e => fail e)
+/-- the first lines of `set_option`: `sanitize_prefix` for `prefix`, `sanitize_dir_option_value` for builtin
+options (needs the current `prefix`), nothing otherwise -/
+def sanitizeForSet (s : Store) (key : Key) (nv0 : Val) : Except Err Val :=
+  if key.name == sPrefix then
+    match nv0 with
+    | .str p => (sanitizePrefix p).map Val.str
+    | _ => .error .assertion
+  else if s.isBuiltin key then
+    match getValueFor s prefixKey with
+    | .ok (.str p) => sanitizeDirValue p key nv0
+    | .ok _ => .error .assertion
+    | .error e => .error e
+  else .ok nv0
+
+/-- `try: opt = self.resolve_option(key)  except KeyError: raise MesonException('Unknown option')` -/
+def resolveForSet (s : Store) (key : Key) : Except Err Nat :=
+  match resolveId s key with
+  | .ok id => .ok id
+  | .error .key => .error .meson
+  | .error e => .error e
+
+/-- `set_option` from `opt.validate_value` on (`s` is the store at entry, `id` the resolved object, `nv1` the
+sanitised value): validate, write object or override, read-only check, prefix reset -/
+def setOptionTail (s : Store) (key : Key) (first : Bool) (id : Nat) (nv1 : Val) : M (Bool × Val) := do
   let o ← getObj id
   let nv ← ofExcept (validate o.kind nv1)
   let old ← (if ahas key s.options then do
@@ -316,6 +323,13 @@ def setOptionCore (key : Key) (nv0 : Val) (first : Bool) : M (Bool × Val) := do
     | .str a, .str b => do resetPrefixedOptions a b; M.pure (changed, nv)
     | _, _ => fail .assertion
   else M.pure (changed, nv)
+
+/-- one activation of `set_option` without the `buildtype` tail; returns `(changed, validated value)` -/
+def setOptionCore (key : Key) (nv0 : Val) (first : Bool) : M (Bool × Val) := do
+  let s ← get
+  let nv1 ← ofExcept (sanitizeForSet s key nv0)
+  let id ← ofExcept (resolveForSet s key)
+  setOptionTail s key first id nv1
 
 /-- `set_option(key, new_value, first_invocation)`; the result is `changed` -/
 def setOption (key : Key) (nv0 : Val) (first : Bool) : M Bool := do
@@ -490,9 +504,16 @@ def firstHandlePrefix (pdo cmd mf : Dict) : M (Dict × Dict × Dict) := do
   | _ => M.pure ()
   M.pure (pdo', cmd', mf')
 
+/-- `OptionStore.buildtype_first(coll)`: the `buildtype` entries (any subproject, any machine) moved to the
+front, everything else in its order -/
+def buildtypeFirst (d : Dict) : Dict :=
+  d.filter (fun p => p.1.name == sBuildtype) ++ d.filter (fun p => !(p.1.name == sBuildtype))
+
 /-- `initialize_from_top_level_project_call(project_default_options, cmd_line_options, machine_file_options)` -/
 def initTop (pdo0 cmd0 mf0 : Dict) : M Unit := do
-  let (pdo, cmd, mf) ← firstHandlePrefix pdo0 cmd0 mf0
+  let (pdo1, cmd, mf1) ← firstHandlePrefix pdo0 cmd0 mf0
+  let pdo := buildtypeFirst pdo1
+  let mf := buildtypeFirst mf1
   forEach (fun (kv : Key × Val) => do
     let s ← get
     if !s.isCross && kv.1.isForBuild then M.pure ()
@@ -540,8 +561,9 @@ def mergeSub (projectOptions : List Key) (pendingSub : Dict) (sub : Str)
     | .error e => .error e
     | .ok d4 => .ok (mergeAddressed sub (mf ++ cmd) d4)
 
-/-- the final loop: apply the merged dict -/
-def applyMerged (sub : Str) : Dict → M Unit :=
+/-- the final loop: apply the merged dict; only the overrides that existed before the loop (`existing`) are
+left alone -/
+def applyMergedWith (existing : Dict) (sub : Str) : Dict → M Unit :=
   forEach (fun (kv : Key × Val) => do
     let (key, v) := kv
     let s ← get
@@ -558,8 +580,12 @@ def applyMerged (sub : Str) : Dict → M Unit :=
       else modify (fun s => { s with pendingSub := ainsert key v s.pendingSub })
     else do
       modify (fun s => { s with pendingSub := aerase key s.pendingSub, pending := aerase key s.pending })
-      if ahas key s.augments then M.pure ()
+      if ahas key existing then M.pure ()
       else do let _ ← setUserOption key v true; M.pure ())
+
+/-- the final loop of `initialize_from_subproject_call`: `buildtype` first, pre-existing overrides win -/
+def applyMerged (sub : Str) (d : Dict) : M Unit := fun s =>
+  applyMergedWith s.augments sub (buildtypeFirst d) s
 
 /-- `initialize_from_subproject_call(subproject, spcall_default_options, project_default_options,
 cmd_line_options, machine_file_options)` -/
